@@ -8,7 +8,10 @@ WT=/tmp/wt-seedcheck.$$
 cd /repo || exit 2
 [ -n "$(git status --porcelain)" ] && { echo "repo not clean"; exit 2; }
 git worktree add --detach "$WT" HEAD >/dev/null 2>&1 || exit 2
-trap 'git -C /repo worktree remove --force "$WT" >/dev/null 2>&1' EXIT
+# whatever ends this script (normal exit, error, INT/TERM/HUP), /repo's working tree is restored and the
+# scratch worktree removed: a seeded change must never stay applied to /repo
+trap 'git -C /repo checkout -- . ; git -C /repo worktree remove --force "$WT" >/dev/null 2>&1' EXIT
+trap 'exit 130' INT TERM HUP
 echo "== demo on clean tree"; (cd "$WT" && bash "$D/demo.sh" "$WT" >/tmp/seedcheck.$$.log 2>&1); RC1=$?; echo "   exit $RC1 (want 0)"; [ $RC1 -ne 0 ] && tail -15 /tmp/seedcheck.$$.log
 echo "== apply patch"; git -C "$WT" apply "$D/patch.diff" || { echo "   PATCH DOES NOT APPLY"; exit 1; }
 echo "== test suite with the change"; (cd "$WT" && CARGO_BUILD_JOBS=8 cargo nextest run --workspace --no-fail-fast --offline 2>&1 | grep -E "Summary|FAIL" | head -5)
